@@ -11,7 +11,10 @@
 (*                                                       orientation interval [q1, q2] quarter turns      *)
 (*   shape  = [k |-> "rect", a, b] (length x width) | [k |-> "disc", a] (radius) | [k |-> "poly", v]     *)
 (*            (integer vertices about the shape origin) | [k |-> "group", parts |-> <<[a, b, cx, cy]>>]   *)
-(*   pred   = [k |-> "none"] | [k |-> "traj", states] | [k |-> "set", occs |-> <<[t, shape, pose]>>]      *)
+(*   pred   = [k |-> "none"] | [k |-> "traj", g, states] | [k |-> "set", g, occs |-> <<[t, shape, pose]>>] *)
+(*            g = GAP between the initial time step and the first prediction step (first step t0+1+g);    *)
+(*            inside the gap there is no state and no occupancy: the time horizon of a dynamic obstacle   *)
+(*            is {t0} union the prediction's own steps                                                    *)
 (*   obstacle o = [id, role, type, t0, shape, init, pred]  (phantom: id, role, type, t0, pred)            *)
 (*            role in {"static", "dynamic", "phantom", "environment"}                                     *)
 EXTENDS Integers, Sequences, FiniteSets, TLC
@@ -61,10 +64,15 @@ Source(o, t) == IF Sources(o, t) = {} THEN Src("None", 0) ELSE CHOOSE s \in Sour
 PredLen(o) == IF o.role \in {"dynamic", "phantom"}
               THEN (CASE o.pred.k = "traj" -> Len(o.pred.states) [] o.pred.k = "set" -> Len(o.pred.occs) [] OTHER -> 0)
               ELSE 0
+PredGap(o) == IF o.role \in {"dynamic", "phantom"} /\ o.pred.k \in {"traj", "set"} THEN o.pred.g ELSE 0
 Timeless(o)    == o.role \in {"static", "environment"}
-FirstT(o)      == IF o.role = "phantom" THEN o.t0 + 1 ELSE o.t0          \* a phantom has no initial state
-LastT(o)       == o.t0 + PredLen(o)
-InHorizon(o, t) == Timeless(o) \/ (FirstT(o) <= t /\ t <= LastT(o))
+FirstPredT(o)  == o.t0 + 1 + PredGap(o)                                   \* first step of the prediction
+LastT(o)       == o.t0 + PredGap(o) + PredLen(o)
+InGap(o, t)    == o.t0 < t /\ t < FirstPredT(o)
+InHorizon(o, t) ==     \* {t0} (a phantom has no initial state) union the prediction's own steps; the gap is outside
+    \/ Timeless(o)
+    \/ (o.role = "dynamic" /\ t = o.t0)
+    \/ (PredLen(o) > 0 /\ FirstPredT(o) <= t /\ t <= LastT(o))
 
 SrcState(o, t) ==      \* the state the occupancy at t is derived from (NoneV for stored / timeless occupancies)
     LET s == Source(o, t)
